@@ -320,7 +320,7 @@ Definition wf_def (d : newdef) : Prop :=
 Definition forget_undefined (d : newdef) (q : proxy) : proxy :=
   if defined d q then q else
   {| p_id := p_id q; p_status := p_status q; p_flows := p_flows q; p_submit := p_submit q;
-     p_held := p_held q; p_queued := p_queued q; p_runahead := p_runahead q; p_manual := p_manual q;
+     p_held := p_held q; p_queued := false; p_runahead := p_runahead q; p_manual := p_manual q;
      p_outputs := p_outputs q; p_prereqs := []; p_cut := p_cut q |}.
 
 Lemma tid_assoc_In {B} i (l : list (tid * B)) v : assoc tid_eqb i l = Some v -> In (i, v) l.
@@ -384,9 +384,7 @@ Proof.
     { unfold orphan in O. unfold defined. apply andb_true_iff in O. destruct O as [_ O].
       apply negb_true_iff in O. exact O. }
     rewrite D, (newpre_undefined d p W D).
-    unfold survives in S. rewrite O in S. cbn in S. apply negb_true_iff in S.
-    unfold removable in S. apply orb_false_iff in S. destruct S as [_ Q].
-    unfold reload_proxy. cbn. rewrite Q. reflexivity.
+    unfold reload_proxy. cbn. reflexivity.
   - rewrite reload_proxy_again. destruct (defined d p) eqn:D; [reflexivity|].
     rewrite (newpre_undefined d p W D). reflexivity.
 Qed.
@@ -426,14 +424,10 @@ Proof.
 Qed.
 
 (* ---------------------------------------------------------------- orphans *)
-Lemma orphan_dropped_unheld d p :
-  survives d p = false -> p_held p = false -> (p_queued p = true -> p_status p = st_waiting) ->
-  started p = false.
+Lemma orphan_dropped_not_started d p : survives d p = false -> started p = false.
 Proof.
-  intros S Hh Hq. apply survives_spec in S. destruct S as [_ R]. unfold removable in R. unfold started.
-  rewrite Hh, orb_false_r in R. apply orb_true_iff in R. destruct R as [R|R].
-  - rewrite R; reflexivity.
-  - rewrite (Hq R). reflexivity.
+  intros S. apply survives_spec in S. destruct S as [_ R]. unfold removable in R. unfold started.
+  rewrite R; reflexivity.
 Qed.
 
 (* ---------------------------------------------------------------- the queued flag *)
